@@ -2,6 +2,7 @@
 from __future__ import annotations
 
 import itertools as it
+from fractions import Fraction
 
 from vf import evaluator as E
 from vf.common import Scenario
@@ -10,7 +11,7 @@ from vf.props.c04 import MODS, compare_result, ghost_pvals
 
 LEVEL = "model_checking"
 META = {
-    "bounds": "protocols of 1-3 steps with concrete dyadic durations from {0.25, 0.5, 1, 2} (pandas Timedelta is C-level), 1-2 parameters per step "
+    "bounds": "protocols of 1-3 steps with concrete dyadic durations from {0.25, 0.5, 1, 2} and a few spanning more than a day (pandas Timedelta is C-level), 1-2 parameters per step "
     "with symbolic values, key order of later steps permuted; simulate_protocol with 1|2 points per step on a fresh simulator or continuing a "
     "simulation with a symbolic end; simulate_protocol_time_course with 1-2 (quick) / 3 (thorough) symbolic requested points, absolute or relative, "
     "fresh or continuing a simulation with a concrete end",
@@ -33,6 +34,9 @@ class Proto(Scenario):
     modules = [*MODS, "mxlpy"]
     float_shim = ["mxlpy.model", "mxlpy.simulator"]
     max_paths = 6000
+    # flows are closed forms in replays (exact to rounding), so much smaller discrepancies than the default 1e-3 are meaningful
+    margin = Fraction(1, 10**9)
+    concrete_tol = 1e-9
 
     def __init__(self, kind, durations, mode, npts=0, relative=False, continued=False, swap=False, per_step=1):
         self.kind = kind
@@ -170,9 +174,10 @@ def scenarios(tier, seed):
     scs = []
     durs = [0.25, 0.5, 1, 2]
     if tier == "quick":
-        layouts = [(1,), (0.5, 1), (1, 0.25), (2, 0.5, 1), (0.25, 0.25, 0.5), (1, 2)]
+        layouts = [(1,), (0.5, 1), (1, 0.25), (2, 0.5, 1), (0.25, 0.25, 0.5), (1, 2), (90000, 0.5)]  # the last one is longer than a day
     else:
         layouts = [(d,) for d in durs] + list(it.product(durs, repeat=2)) + [l for l in it.product(durs, repeat=3) if sum(l) <= 4]
+        layouts += [(90000, 0.5), (43200, 43200, 43200), (0.5, 172800)]
     for lay in layouts:
         for cont in (False, True):
             for ps in (1, 2):
